@@ -18,6 +18,7 @@ type crsTree struct {
 	confs   []string          // .conf / .example paths
 	decoys  []string
 	targets map[string]ruleTarget // arg (id or id-chainK) -> operand location in its rules file
+	cfg     [][]byte              // the six patterns of toolchain.yaml (nil: no file)
 }
 
 type raFile struct {
@@ -72,7 +73,8 @@ func genCRSTree(r *rand.Rand, nRa int) *crsTree {
 	}
 	ct.t["regex-assembly/include/"] = nil
 	if chance(r, 0.5) {
-		ct.t["regex-assembly/toolchain.yaml"] = []byte(toolchainYaml(bytesOf(cfgMenu[1+r.Intn(2)])))
+		ct.cfg = bytesOf(cfgMenu[1+r.Intn(2)])
+		ct.t["regex-assembly/toolchain.yaml"] = []byte(toolchainYaml(ct.cfg))
 	}
 	prefixes := []string{"942", "932", "920"}
 	type ruleSpec struct {
